@@ -5,6 +5,59 @@ package hlib
 
 var wireExtraKinds = []wireKind{
 	{"flow_mod_deep_ct", wireOK(func(g *wireGen) *W { return genDeepCT(g) })},
+	{"bundle_add_deep", wireOK(func(g *wireGen) *W { return genDeepBundle(g) })},
+}
+
+// genDeepBundle: ONF bundle-add messages nested inside each other (24 bytes per level, 3 to
+// several hundred levels; the 64 KiB frame limit allows about 2700). The innermost message is an
+// echo request, or - half of the time - a message the parser rejects, so that an error travels
+// back up through every level.
+func genDeepBundle(g *wireGen) *W {
+	depth := 3 + g.r.Intn(12)
+	switch {
+	case g.hint >= 9000:
+		depth = 300 + g.r.Intn(500)
+	case g.hint >= 2000:
+		depth = 60 + g.r.Intn(200)
+	case g.hint >= 300:
+		depth = 10 + g.r.Intn(40)
+	}
+	w := &W{}
+	var lenAt []int
+	for d := 0; d < depth; d++ {
+		if d == 0 {
+			w.MU8(4, "of.version")
+			w.MU8(4, "of.type")
+			lenAt = append(lenAt, w.Len())
+			w.MU16(0, "of.length")
+		} else {
+			w.U8(4)
+			w.MU8(4, "of.type")
+			lenAt = append(lenAt, w.Len())
+			w.MU16(0, "of.length")
+		}
+		w.U32(g.xid)
+		w.MU32(0x4f4e4600, "vendor.id")
+		w.MU32(2301, "vendor.type")
+		w.U32(uint32(g.r.Intn(1 << 16))) // bundle id
+		w.Zero(2)
+		w.U16(uint16(g.r.Intn(4))) // flags
+	}
+	// innermost message
+	w.U8(4)
+	if g.r.Chance(0.5) {
+		w.MU8(2, "of.type") // echo request
+		w.MU16(8, "of.length")
+	} else {
+		w.MU8(uint8(24+g.r.Intn(6)), "of.type") // a type the parser has no decoder for
+		w.MU16(8, "of.length")
+	}
+	w.U32(g.xid)
+	end := w.Len()
+	for _, at := range lenAt {
+		w.Put16(at, uint16(end-(at-2)))
+	}
+	return w
 }
 
 // genDeepCT: a flow-mod whose apply-actions instruction holds conntrack actions nested 3..60
